@@ -146,6 +146,8 @@ impl InputList {
         loop {
             let ev = reader.read_event_into(&mut buf);
             let event_lines = if let Ok(ok_ev) = ev.clone() {
+                // names, text and CDATA are all held as strings from here on
+                String::from_utf8(ok_ev.as_ref().to_vec())?;
                 ok_ev.as_ref().iter().filter(|&c| *c == b'\n').count()
             } else {
                 0
